@@ -1,6 +1,7 @@
 """C05  Hedges compute their formulas and keep degrees in [0,1]."""
 from __future__ import annotations
 
+import numpy as np
 import z3
 
 from symfl import core
@@ -38,7 +39,7 @@ PY = {
     "seldom": "(math.sqrt(x/2) if x <= 0.5 else 1-math.sqrt((1-x)/2))", "somewhat": "math.sqrt(x)", "very": "x*x",
 }
 CLS = {"any": "Any", "extremely": "Extremely", "not": "Not", "seldom": "Seldom", "somewhat": "Somewhat", "very": "Very"}
-LAWS = ["formula", "range", "fixed", "monotone", "arrays"]
+LAWS = ["formula", "range", "fixed", "monotone", "arrays", "fresh"]
 
 
 def _replay(name, law):
@@ -56,6 +57,10 @@ def _replay(name, law):
                       "any": "bad = not (same(f(0.0), 1.0) and same(f(1.0), 1.0) and same(f(x), 1.0))"}.get(
                           name, "bad = not (same(f(0.0), 0.0) and same(f(1.0), 1.0))"),
             "monotone": "bad = (x <= x2) and not (f(x) >= f(x2) - tol)" if anti else "bad = (x <= x2) and not (f(x) <= f(x2) + tol)",
+            "fresh": "r1 = Hd.hedge(np.array([x, x2])); r1 = np.asarray(r1, dtype=float); r1 *= 0.5; r2 = Hd.hedge(np.array([x2, x]))\n"
+                     "z1 = Hd.hedge(np.array(x)); z1 = np.asarray(z1, dtype=float); z1 *= 0.5; z2 = Hd.hedge(np.array(x2))\n"
+                     "g = lambda t: float(type(Hd)().hedge(t))      # expected values from fresh hedge objects\n"
+                     "bad = not (same(r2, [g(x2), g(x)], 0.0) and same(z2, g(x2), 0.0))",
             "arrays": "X = [v[k] for k in sorted(v) if k.startswith('x') and k[1:].isdigit()]; A = np.array(X); r = Hd.hedge(A)\n"
                       "M = [[v[k] for k in sorted(v) if k.startswith('m%d' % i)] for i in range(2)]; B = np.array(M); r2 = Hd.hedge(B)\n"
                       "bad = not (same(r, [f(t) for t in X], tol) and same(r2, [[f(t) for t in row] for row in M], tol) and same(A, X) and same(B, M))",
@@ -93,6 +98,17 @@ def _ob(name, law, tier):
                 return Hd.hedge(core.const(0.0)), Hd.hedge(core.const(1.0)), Hd.hedge(x)
             if law == "monotone":
                 return Hd.hedge(x), Hd.hedge(x2)
+            if law == "fresh":
+                # the result of one call belongs to the caller: scaling it in place must not show in the result of the next call
+                r1 = Hd.hedge(sym_array([x, x2]))
+                if isinstance(r1, (core.SymArray, np.ndarray)):
+                    r1 *= 0.5
+                r2 = Hd.hedge(sym_array([x2, x]))
+                z1 = Hd.hedge(core.sym0d(x))
+                if isinstance(z1, (core.SymArray, np.ndarray)):
+                    z1 *= 0.5
+                z2 = Hd.hedge(core.sym0d(x2))
+                return r2, [_hedge(fl, name).hedge(x2), _hedge(fl, name).hedge(x)], z2      # expected values from fresh hedge objects
             if law == "arrays":
                 n = 2 if tier == "quick" else 4
                 xs = [rvar(f"x{i}") for i in range(n)]
@@ -127,6 +143,9 @@ def _ob(name, law, tier):
                 ob.prove(pre + [x.v <= x2.v], p, claim, f"{name}/monotone", ins, rp)
                 if name != "any":
                     ob.expect_sat(pre + [x.v <= x2.v], p, z3.Not(claim), f"{name}/monotone/twin")
+            elif law == "fresh":
+                r2, e2, z2 = r
+                ob.prove(pre, p, z3.And(all_same(r2, e2), all_same(z2, [e2[0]])), f"{name}/fresh-results", ins, rp)
             elif law == "arrays":
                 r1, e1, r2, e2, xs, m, A, B = r
                 pre2 = [unit(v) for v in xs] + [unit(v) for row in m for v in row]
